@@ -151,10 +151,16 @@ Keep(e) == ~(Limit > 0 /\ ((e.kind = "f1" /\ 1 >= Limit) \/ (e.kind = "f2" /\ 2 
 Eff(im) == [i \in 1..Len(im) |-> SelectSeq(im[i], Keep)]
 
 Init == img = <<>> /\ cur = <<>>
+\* a deletion marker sits in a directory: its ancestors are directories (or absent) in the image below
+MarkerInDirs(e) == e.kind \in {"wh", "opq"} => \A q \in Ancestors(e.path) : Overlay(img, Len(img))[q] \in {"dir", None}
 AddEntry(e) == /\ Len(img) < MaxLayers /\ Len(cur) < MaxEntries[Len(img) + 1]
-               /\ GoodLayer(Append(cur, e))
+               /\ GoodLayer(Append(cur, e)) /\ MarkerInDirs(e)
                /\ cur' = Append(cur, e) /\ UNCHANGED img
-CloseLayer == /\ cur # <<>> /\ img' = Append(img, cur) /\ cur' = <<>>
+\* a diff that puts something below a path which is a non-directory in the image below carries the directory entry for it
+ParentsAnnounced == \A i \in DOMAIN cur : \A q \in Ancestors(cur[i].path) :
+                       \/ Overlay(img, Len(img))[q] \in {"dir", None}
+                       \/ \E j \in DOMAIN cur : cur[j].path = q /\ cur[j].kind = "dir"
+CloseLayer == /\ cur # <<>> /\ ParentsAnnounced /\ img' = Append(img, cur) /\ cur' = <<>>
 Next == (\E e \in Entries : AddEntry(e)) \/ CloseLayer
 Spec == Init /\ [][Next]_vars
 Complete == cur = <<>> /\ img # <<>>
